@@ -201,8 +201,9 @@ static void run(Src &s) {
   to.allow_links = s.chance(30);
   to.multiline_values = true;
   to.max_consulted = 6;
-  size_t dk = s.weighted({40, 15, 15, 10, 10, 10});  // delimiter option: default, "=", " ", \t, spaces, long string
+  size_t dk = s.weighted({40, 15, 15, 10, 10, 10, 8});  // delimiter option: default, "=", " ", \t, spaces, long string, empty
   to.fixed_di = (dk == 2 || dk == 3 || dk == 4) ? 2 : 0;
+  if (dk == 6) to.multiline_values = false;  // no delimiter at all: every line is a key of its own
   if (dk == 5) to.multiline_values = false;  // escapes are blanks: a delimiter set with blank and non-blank characters has no multi-line values
   size_t ck = s.weighted({55, 20, 25});  // --comment: default, ';', '#;'
   to.comment_lines = ck == 0 ? "#" : ck == 1 ? ";" : "#;";
@@ -301,6 +302,12 @@ static void run(Src &s) {
       g_case.tag("long_delimiter_string");
       break;
     }
+    case 6:
+      // an empty delimiter string is a choice of its own (a list of bare keys), not "use the default"
+      if (s.chance(50)) opts = {"--delimiters="}; else opts = {"-d", ""};
+      D = "";
+      g_case.tag("empty_delimiter_string");
+      break;
     default: break;
   }
   if (ck == 1) {
